@@ -36,6 +36,9 @@ HOSTILE = [
     '\\\'; raise SystemExit #'.replace('\\\\', ''), ']); query = None; ([', ') for x in [1]: pass\n', '__import__', 'eval',
     'exec("1")', 'lambda: 0', 'f"{1+1}"', "''' + 1 + '''", '"""', '#', '\r\nos.system("x")', '\x00', ' import os', 'é=1',
     '1+1', 'True', 'None', 'query', 'atom', 'unify', '__builtins__', 'ATOM_NIL', ':=', '\t', '`id`', '$(id)', '${x}',
+    # every character that ends a line for some tool, followed by a statement
+    '\rATTACK = atom #', '\r\nATTACK = 1', '\x0bATTACK = 1', '\x0cATTACK = 1', '\x1cATTACK = 1', '\x1dATTACK = 1',
+    '\x1eATTACK = 1', '\x85ATTACK = 1', '\u2028ATTACK = 1', '\u2029ATTACK = 1',
 ]
 HOSTILE_VARS = ['True', 'False', 'None', '__debug__', 'ATOM_NIL', '__builtins__', '__import__', '__name__', '__class__',
                 'Exception', 'ATOM_NIL_', 'True_', '_', '__', 'Query', 'Unify', '_query', '_atom', 'X', 'Y']
@@ -45,7 +48,7 @@ IDENT_HEADS = ['p', 'q', 'query', 'atom', 'unify', 'eval', 'exec', 'variable', '
 
 def plan(tier, seed):
     if tier == 'quick':
-        return {'n': 30000, 'deadline': 150,
+        return {'n': 24000, 'deadline': 150,
                 'floor': {'distinct_nontrivial': 8000, 'programs_compiled': 10000, 'ast_nodes_checked': 1000000,
                           'string_constants_checked': 100000, 'hostile_strings_emitted': 60000, 'loads_audited': 10000,
                           'call_events_checked': 80000, 'hostile_queries': 100000, 'renamings_compared': 3000,
@@ -161,7 +164,16 @@ def gen_hostile(rng):
         goals = []
         for _ in range(rng.choice([0, 1, 2, 3])):
             r = rng.random()
-            if r < 0.4:
+            if r < 0.06:
+                # names the code generator uses internally must be ordinary predicate names when they come from source text
+                g = rng.choice(['$CUTIF', '$CUTIF', '$cutif', '$CUT', '$BREAK', 'cutIf1'])
+                names.add(g)
+                arg = rng.choice(['zz = 1; yy', 'query = None; x', 'cutIf1'])
+                names.add(arg)
+                goals.append("'" + g + "'('" + arg + "')")
+                if rng.random() < 0.5:
+                    goals.append(atomsrc(hs()) + '(' + term(1) + ')')
+            elif r < 0.4:
                 g = hs()
                 goals.append(atomsrc(g) + '(' + ','.join(term(1) for _ in range(rng.choice([1, 2]))) + ')')
             elif r < 0.55:
@@ -178,7 +190,19 @@ def gen_hostile(rng):
     return '\n'.join(clauses) + '\n', names, heads, vars_, mk[0], hostile_head
 
 
-def check_ast(code, names, heads, ctxkeys, c):
+import re as _re
+INTERNAL_NAME = _re.compile(r'(arg\d+|l\d+|x\d+|cutIf\d+|doBreak|_)\Z')
+
+
+def name_allowed(n, srcvars, ctxkeys):
+    """identifiers of generated code: engine API, generator-internal names, or a Prolog variable of the source
+    (possibly with trailing underscores added by the reserved-name mangling)"""
+    if n in ctxkeys or INTERNAL_NAME.match(n):
+        return True
+    return n in srcvars or n.rstrip('_') in srcvars or any(n.startswith(v) and set(n[len(v):]) <= {'_'} for v in srcvars)
+
+
+def check_ast(code, names, heads, ctxkeys, c, srcvars=None):
     """the taint / whitelist rule on emitted code; returns (kind, detail) or None"""
     try:
         tree = ast.parse(code)
@@ -211,6 +235,8 @@ def check_ast(code, names, heads, ctxkeys, c):
                 if n.func.id in locals_:
                     return ('api_name_shadowed_by_local', {'function': f.name, 'name': n.func.id})
             elif isinstance(n, ast.Name):
+                if srcvars is not None and not name_allowed(n.id, srcvars, ctxkeys):
+                    return ('identifier_not_from_a_source_variable', {'function': f.name, 'name': n.id[:60]})
                 if isinstance(n.ctx, ast.Load):
                     if n.id not in locals_ and n.id not in ctxkeys:
                         return ('name_loaded_is_neither_local_nor_api', {'function': f.name, 'name': n.id})
@@ -273,9 +299,35 @@ def case_program(ctx, rng, c):
     ctxkeys = set(yp.eval_context.keys())
     for hname, ar in heads:
         names.add(hname)
-    v = check_ast(code, names, heads, ctxkeys, c)
+    v = check_ast(code, names, heads, ctxkeys, c, set(vars_))
     if v:
         return viol(v[0], v[1])
+    # with every debug option on, the compiler writes traces of the source text into the same stream as the
+    # code: they must stay comments (the stream followed by the code parses to the same tree as the code alone)
+    import io
+
+    class DCtx:
+        debug_filename = True
+        debug_parser = True
+        debug_generator = True
+        current_source_file = 'hostile\rATTACK = 1.prolog'
+        outf = io.StringIO()
+    try:
+        if rng.random() < 0.65:
+            raise KeyError('skip')          # the debug-stream monitor runs on a third of the programs (it is slow)
+        dcode = real.Cm.compile_prolog_from_string(src, DCtx)
+        full = DCtx.outf.getvalue() + dcode
+        try:
+            same = ast.dump(ast.parse(full)) == ast.dump(ast.parse(code))
+        except (SyntaxError, ValueError) as e:
+            return viol('debug_output_breaks_the_generated_code', {'error': str(e)[:160]})
+        if not same:
+            return viol('debug_output_adds_code', {'stream_lines': full.count(chr(10))})
+        c['debug_streams_checked'] = c.get('debug_streams_checked', 0) + 1
+    except KeyError:
+        pass
+    except Exception as e:
+        return viol('compile_with_debug_options_raises', {'error': type(e).__name__ + ': ' + str(e)[:160]})
     # execution monitor: load
     api = [val for k, val in yp.eval_context.items() if callable(val)]
     aud, calls = ctx['audit'], ctx['calls']
@@ -470,6 +522,8 @@ def corpus():
         "t(ATOM_NIL, L) :- L = [], ATOM_NIL = a.\n",                     # F10: capture of an engine name
         "p('\\'); import os; (\\'').\n", "p('a\nimport os\n').\n", "p(X) :- 'q\n'(X), X = '\"\"\"'.\n",
         "p(__builtins__, True) :- __builtins__ = True.\n",
+        "q.\np :- '$CUTIF'('zz = 1; yy'), q.\n",                       # F20: the generator's internal marker written by the user
+        "q.\np :- q, '$CUTIF'('query = None; x').\n",
     ]]
 
 
@@ -502,7 +556,8 @@ def run_corpus(ctx, item):
             names.add(recog.unquote(t))
         elif k in ('ATOM', 'BINOP', 'UNOP'):
             names.add(t)
-    v = check_ast(code, names, heads, set(yp.eval_context.keys()), c)
+    srcvars = set(t for k, t in toks if k == 'VARIABLE')
+    v = check_ast(code, names, heads, set(yp.eval_context.keys()), c, srcvars)
     if v:
         return {'c': c, 'nt': True, 'key': src, 'v': {'kind': v[0], 'detail': v[1], 'witness': w}}
     aud = ctx['audit']
